@@ -58,6 +58,9 @@ Issuable(in) == /\ in.rid = "r1"
 InputOK(in) == (in.rsig = "gen" => Issuable(in))
 
 Inputs == { in \in [rid : RIds, rsig : RSigs, kids : KidSeqs] : InputOK(in) }
+\* (concretisation detail, chosen by seed like the layout: on odd seeds the sender also writes
+\* SignatureValidated="true" attributes on every element it controls -- the result structs have a field
+\* of that name and nothing in a message may set it)
 Cfgs   == [skip : BOOLEAN]
 
 ---------------------------------------------------------------------------
